@@ -8,6 +8,9 @@ package db
 // (i.e. exactly between the read and the compare-and-swap write of updateAndReturnDoc), a generated list of
 // COMPLETE operations of other clients, which may themselves be instrumented (nesting depth <= 2), and may
 // in addition be answered with an injected CAS mismatch at any retry.
+// Multi-node mode (TestVerif_C05_MultiNode): the deterministic mode over 2-3 gateway nodes (DatabaseContexts
+// with their own sequence allocators and change caches) on ONE bucket, with real sequence batching; clients are
+// assigned to nodes by the generator, window operations may run on another node than the hooked write.
 // Concurrent mode (TestVerif_C05_Concurrent): the same clients as free-running goroutines.
 // Oracle: a history checker over the acknowledgements (see vfC05World.finalCheck).
 
@@ -22,6 +25,7 @@ import (
 	"strings"
 	"sync"
 	"testing"
+	"time"
 
 	sgbucket "github.com/couchbase/sg-bucket"
 	"github.com/couchbase/sync_gateway/base"
@@ -42,11 +46,18 @@ type vfC05Op struct {
 	id     int
 	client int
 	doc    int
-	kind   string // read | put | push | pushnc | del | pushdel
+	kind   string // read | put | push | pushnc | del | pushdel | multi-node only: relay | warm | idle
 	pick   int    // which leaf a read remembers when the document is in conflict
 	win    bool   // pushed revision ids get a digest that sorts high (true) or low (false)
 	yield  int    // concurrent mode: scheduler yields before the operation
 	window int    // concurrent mode over the fault store: scheduler yields inside the read -> CAS-write window
+
+	// multi-node mode: a push may carry ONE intermediate revision the gateway has not seen (history
+	// [new, mid, parent], as a replicator that only relays leaf revisions sends it); relay is the push of
+	// exactly that intermediate revision [mid, parent] by another replicator relaying from the same source,
+	// generated only inside the window of its target
+	extra bool
+	relay *vfC05Op
 
 	instrumented bool
 	hooks        [][]*vfC05Op // hooks[k] runs immediately before the (k+1)-th CAS write of this operation
@@ -66,6 +77,12 @@ func (o *vfC05Op) render() string {
 		} else {
 			s += ",lo"
 		}
+		if o.extra {
+			s += ",+mid"
+		}
+	}
+	if o.kind == "relay" && o.relay != nil {
+		s += fmt.Sprintf(",mid-of#%d", o.relay.id)
 	}
 	s += ")#" + strconv.Itoa(o.id)
 	if o.yield > 0 {
@@ -97,11 +114,16 @@ type vfC05Gen struct {
 	clients, docs int
 	allow         bool
 	next          int
+	multi         bool // multi-node mode: extra kinds
 }
 
 var vfC05Kinds = []string{"read", "read", "put", "put", "put", "put", "push", "pushnc", "del", "pushdel"}
 
-func (g *vfC05Gen) ops(rt *rapid.T, depth int, busy []int, n int, focus int) []*vfC05Op {
+// multi-node mode: more pushes (half of them carrying an intermediate revision), allocator traffic on the
+// client's node (warm = a write to a private document, idle = the node's idle release of its reserved batch)
+var vfC05KindsMulti = []string{"read", "read", "put", "put", "put", "push", "push", "pushnc", "pushnc", "del", "pushdel", "warm", "warm", "idle"}
+
+func (g *vfC05Gen) ops(rt *rapid.T, depth int, busy []int, n int, focus int, encl *vfC05Op) []*vfC05Op {
 	var free []int
 	for c := 0; c < g.clients; c++ {
 		b := false
@@ -128,20 +150,30 @@ func (g *vfC05Gen) ops(rt *rapid.T, depth int, busy []int, n int, focus int) []*
 		} else if focus < 0 {
 			o.doc = 0
 		}
-		o.kind = rapid.SampledFrom(vfC05Kinds).Draw(rt, "kind")
+		if g.multi {
+			o.kind = rapid.SampledFrom(vfC05KindsMulti).Draw(rt, "kind")
+			if encl != nil && encl.extra && o.doc == encl.doc && rapid.IntRange(0, 1).Draw(rt, "relay") == 0 {
+				o.kind, o.relay = "relay", encl
+			}
+			if strings.HasPrefix(o.kind, "push") {
+				o.extra = rapid.Bool().Draw(rt, "mid")
+			}
+		} else {
+			o.kind = rapid.SampledFrom(vfC05Kinds).Draw(rt, "kind")
+		}
 		if o.kind == "read" && g.allow {
 			o.pick = rapid.IntRange(0, 2).Draw(rt, "leaf")
 		}
 		if strings.HasPrefix(o.kind, "push") {
 			o.win = rapid.Bool().Draw(rt, "hi")
 		}
-		if o.kind != "read" && depth < 2 && rapid.IntRange(0, 9).Draw(rt, "instrument") < 6 {
+		if o.kind != "read" && o.kind != "warm" && o.kind != "idle" && depth < 2 && rapid.IntRange(0, 9).Draw(rt, "instrument") < 6 {
 			o.instrumented = true
 			tries := rapid.IntRange(1, 3).Draw(rt, "tries")
 			for k := 0; k < tries; k++ {
 				o.failCas = append(o.failCas, rapid.IntRange(0, 3).Draw(rt, "failcas") == 0)
 				nn := rapid.IntRange(0, 2).Draw(rt, "nested")
-				o.hooks = append(o.hooks, g.ops(rt, depth+1, append(append([]int{}, busy...), o.client), nn, o.doc))
+				o.hooks = append(o.hooks, g.ops(rt, depth+1, append(append([]int{}, busy...), o.client), nn, o.doc, o))
 			}
 		}
 		out = append(out, o)
@@ -161,7 +193,9 @@ type vfC05Ack struct {
 	op, client, doc int
 	kind            string
 	named           string // parent revision the writer named ("" = none named)
+	mid             string // intermediate revision the push carried between named and rev ("" = none)
 	rev             string
+	node            int
 	seq             uint64
 	deleted         bool
 	unused          []uint64
@@ -184,20 +218,47 @@ type vfC05Node struct {
 	coll *DatabaseCollectionWithUser
 }
 
-type vfC05World struct {
-	nodes []*vfC05Node // nodes[0] is env's database; a second node shares the bucket (two-node dimension)
-	env   *vfEnv
-	w     *vs.Bucket
-	allow bool
-	docs  []string
+// window returns the node's reserved-but-not-handed-out sequence window (classification only).
+func (n *vfC05Node) window() (last, max uint64) {
+	a := n.dbc.sequences
+	a.mutex.Lock()
+	defer a.mutex.Unlock()
+	return a.last, a.max
+}
 
-	mu       sync.Mutex
-	know     [][]vfC05Known // [client][doc]; a client only touches its own row
-	acks     []vfC05Ack
-	rejs     []vfC05Rej
-	log      []string
-	problems []string // oracle failures noticed while other code is on the stack; raised by the caller
-	attempts map[string]int
+type vfC05Chain struct{ mid, parent string }
+
+type vfC05World struct {
+	nodes  []*vfC05Node // nodes[0] is env's database; further nodes share the bucket (multi-node mode)
+	nodeOf []int        // client -> node
+	env    *vfEnv
+	w      *vs.Bucket
+	allow  bool
+	docs   []string
+
+	mu        sync.Mutex
+	know      [][]vfC05Known // [client][doc]; a client only touches its own row
+	acks      []vfC05Ack
+	rejs      []vfC05Rej
+	log       []string
+	problems  []string // oracle failures noticed while other code is on the stack; raised by the caller
+	attempts  map[string]int
+	windowAck map[int]bool // op id -> an acknowledged same-document write landed inside one of its windows
+	// multi-node mode
+	inflight  map[int]vfC05Chain // push with an intermediate revision that is executing: op id -> chain
+	warmSeqs  map[uint64]string  // sequences acknowledged to warm-up writes of private documents
+	warmN     int
+	lastSeq   map[int]uint64 // doc -> sequence of the last acknowledged write (classification only)
+	crossNode bool           // an acknowledged same-document window write ran on another node than the hooked write
+	behind    bool           // ... and the hooked node's next reserved number was not above that write's sequence
+	inHand    bool           // ... and the hooked node still held reserved numbers at that moment
+	firstPass bool           // a write started on a node whose next reserved number is not above the document's sequence
+	relayed   bool           // a relayed intermediate revision was acknowledged inside its target's window
+	legal     bool           // a hooked write was acknowledged although a same-document window write was acknowledged
+	idled     bool
+	behindOp  map[int]bool // op id -> "behind" held in one of its windows
+	behindAck bool         // ... and that write was acknowledged (its retry was legal)
+	started   time.Time    // multi-node mode: start of the case (slow-case guard of the feed check only)
 	// known-finding avoidance (only when vfC05SigResurrect is listed as open)
 	avoid      bool
 	resWindow  map[int]int  // doc -> number of enclosing CAS windows that end in a resurrection write
@@ -251,7 +312,11 @@ func vfC05Digest(rev string) string {
 // exec runs one operation to completion on the calling goroutine. ctx carries the fault-store marker
 // when the operation is instrumented.
 func (w *vfC05World) exec(o *vfC05Op, depth int) {
-	node := w.nodes[o.client%len(w.nodes)]
+	nodeIdx := 0
+	if o.client < len(w.nodeOf) {
+		nodeIdx = w.nodeOf[o.client]
+	}
+	node := w.nodes[nodeIdx]
 	ctx := node.ctx
 	if o.instrumented {
 		ctx = vs.MarkAs(node.ctx, o.label())
@@ -261,11 +326,43 @@ func (w *vfC05World) exec(o *vfC05Op, depth int) {
 		w.depth2 = true
 		w.mu.Unlock()
 	}
+	switch o.kind {
+	case "warm":
+		w.warmWrite(nodeIdx)
+		return
+	case "idle":
+		// what the node's idle timer (releaseSequenceMonitor, parked in this mode) does after 1.5 s without a reservation
+		node.dbc.sequences.releaseUnusedSequences(node.ctx)
+		w.mu.Lock()
+		w.idled = true
+		w.log = append(w.log, fmt.Sprintf("n%d.idle-release", nodeIdx))
+		w.mu.Unlock()
+		return
+	}
 	docID := w.docs[o.doc]
 	k := w.know[o.client][o.doc]
 	kind := o.kind
-	if kind != "read" && kind != "put" && !k.known {
+	var relayed vfC05Chain
+	if kind == "relay" {
+		w.mu.Lock()
+		ch, ok := w.inflight[o.relay.id]
+		w.mu.Unlock()
+		if ok {
+			relayed = ch
+		} else {
+			kind = "put" // the target is not a push with an intermediate revision in this execution
+		}
+	}
+	if kind != "read" && kind != "put" && kind != "relay" && !k.known {
 		kind = "put" // nothing read yet: the only sensible write is a create
+	}
+	if len(w.nodes) > 1 && kind != "read" {
+		last, max := node.window()
+		w.mu.Lock()
+		if last < max && last+1 <= w.lastSeq[o.doc] {
+			w.firstPass = true
+		}
+		w.mu.Unlock()
 	}
 	if w.avoid && (kind == "del" || kind == "pushdel") {
 		if w.concurrent {
@@ -321,7 +418,34 @@ func (w *vfC05World) exec(o *vfC05Op, depth int) {
 			body[BodyRev] = k.rev
 		}
 		rev, doc, err := node.coll.Put(ctx, docID, body)
-		w.outcome(o, kind, k, "", rev, doc, err)
+		w.outcome(o, kind, k, "", "", rev, doc, err)
+	case "relay":
+		// another replicator relays the intermediate revision of the target push with its true ancestry
+		hist := []string{relayed.mid, relayed.parent}
+		doc, rev, err := node.coll.PutExistingRevWithBody(ctx, docID, Body{"v": o.id}, hist, true, ExistingVersionWithUpdateToHLV)
+		if err == nil && doc == nil {
+			// "no new revisions to add": legitimate only when the revision was acknowledged to another relay before
+			w.mu.Lock()
+			seen := false
+			for _, a := range w.acks {
+				if a.doc == o.doc && (a.rev == relayed.mid || a.mid == relayed.mid) {
+					seen = true
+				}
+			}
+			if seen {
+				w.log = append(w.log, fmt.Sprintf("c%d@n%d.relay(d%d,%s)#%d=already-known", o.client, nodeIdx, o.doc, relayed.mid, o.id))
+			} else {
+				w.problems = append(w.problems, fmt.Sprintf("relay #%d of revision %s, which no acknowledged write created, was answered as already known", o.id, relayed.mid))
+			}
+			w.mu.Unlock()
+			return
+		}
+		if err == nil && rev != relayed.mid {
+			w.mu.Lock()
+			w.problems = append(w.problems, fmt.Sprintf("relay #%d of %s acknowledged as %s", o.id, relayed.mid, rev))
+			w.mu.Unlock()
+		}
+		w.outcome(o, kind, vfC05Known{known: true, rev: relayed.parent}, relayed.mid, "", rev, doc, err)
 	default: // push, pushnc, pushdel
 		body := Body{"v": o.id}
 		if kind == "pushdel" {
@@ -334,6 +458,20 @@ func (w *vfC05World) exec(o *vfC05Op, depth int) {
 		newRev := fmt.Sprintf("%d-%s%031x", vfC05Gen1(k.rev)+1, c, o.id+1)
 		// the client names its parent; the rest of the ancestry is not needed to locate the branch point
 		hist := []string{newRev, k.rev}
+		mid := ""
+		if o.extra {
+			mid = fmt.Sprintf("%d-8%031x", vfC05Gen1(k.rev)+1, o.id+1)
+			newRev = fmt.Sprintf("%d-%s%031x", vfC05Gen1(k.rev)+2, c, o.id+1)
+			hist = []string{newRev, mid, k.rev}
+			w.mu.Lock()
+			w.inflight[o.id] = vfC05Chain{mid: mid, parent: k.rev}
+			w.mu.Unlock()
+			defer func() {
+				w.mu.Lock()
+				delete(w.inflight, o.id)
+				w.mu.Unlock()
+			}()
+		}
 		doc, rev, err := node.coll.PutExistingRevWithBody(ctx, docID, body, hist, kind == "pushnc", ExistingVersionWithUpdateToHLV)
 		if err == nil && doc == nil {
 			// "no new revisions to add": cannot happen with unique digests
@@ -347,13 +485,43 @@ func (w *vfC05World) exec(o *vfC05Op, depth int) {
 			w.problems = append(w.problems, fmt.Sprintf("push #%d of %s acknowledged as %s", o.id, newRev, rev))
 			w.mu.Unlock()
 		}
-		w.outcome(o, kind, k, newRev, rev, doc, err)
+		w.outcome(o, kind, k, newRev, mid, rev, doc, err)
 	}
 }
 
-func (w *vfC05World) outcome(o *vfC05Op, kind string, k vfC05Known, pushedRev, rev string, doc *Document, err error) {
+// warmWrite is a write to a private document through the given node: it moves the node's allocator
+// (reserving a batch when the node has none in hand).
+func (w *vfC05World) warmWrite(nodeIdx int) {
+	node := w.nodes[nodeIdx]
+	w.mu.Lock()
+	w.warmN++
+	id := fmt.Sprintf("warm%d", w.warmN)
+	w.mu.Unlock()
+	_, doc, err := node.coll.Put(node.ctx, id, Body{"warm": true})
 	w.mu.Lock()
 	defer w.mu.Unlock()
+	if err != nil || doc == nil {
+		w.infra = fmt.Sprintf("warm-up write of %s on node %d failed: %v", id, nodeIdx, err)
+		return
+	}
+	if prev, dup := w.warmSeqs[doc.Sequence]; dup {
+		w.problems = append(w.problems, fmt.Sprintf("writes of %s and %s were both acknowledged with sequence %d", prev, id, doc.Sequence))
+	}
+	w.warmSeqs[doc.Sequence] = id
+	w.log = append(w.log, fmt.Sprintf("n%d.warm(%s)@%d", nodeIdx, id, doc.Sequence))
+}
+
+func (w *vfC05World) outcome(o *vfC05Op, kind string, k vfC05Known, pushedRev, mid, rev string, doc *Document, err error) {
+	w.mu.Lock()
+	defer w.mu.Unlock()
+	nodeIdx := 0
+	if o.client < len(w.nodeOf) {
+		nodeIdx = w.nodeOf[o.client]
+	}
+	at := ""
+	if len(w.nodes) > 1 {
+		at = "@n" + strconv.Itoa(nodeIdx)
+	}
 	named := ""
 	if k.known {
 		named = k.rev
@@ -366,18 +534,29 @@ func (w *vfC05World) outcome(o *vfC05Op, kind string, k vfC05Known, pushedRev, r
 			w.rosmarRace = true
 		}
 		w.rejs = append(w.rejs, vfC05Rej{op: o.id, client: o.client, doc: o.doc, kind: kind, status: status, err: err.Error(), rev: pushedRev, rosmarRace: race})
-		w.log = append(w.log, fmt.Sprintf("c%d.%s(d%d,parent=%q)#%d=ERR%d", o.client, kind, o.doc, named, o.id, status))
+		w.log = append(w.log, fmt.Sprintf("c%d%s.%s(d%d,parent=%q)#%d=ERR%d", o.client, at, kind, o.doc, named, o.id, status))
 		return
 	}
 	if doc == nil {
 		w.problems = append(w.problems, fmt.Sprintf("write #%d acknowledged without a document", o.id))
 		return
 	}
-	a := vfC05Ack{op: o.id, client: o.client, doc: o.doc, kind: kind, named: named, rev: rev, seq: doc.Sequence,
+	a := vfC05Ack{op: o.id, client: o.client, doc: o.doc, kind: kind, named: named, mid: mid, rev: rev, node: nodeIdx, seq: doc.Sequence,
 		deleted: kind == "del" || kind == "pushdel", unused: append([]uint64{}, doc.UnusedSequences...), v: o.id}
 	w.acks = append(w.acks, a)
 	w.know[o.client][o.doc] = vfC05Known{known: true, rev: rev}
-	w.log = append(w.log, fmt.Sprintf("c%d.%s(d%d,parent=%q)#%d=%s@%d", o.client, kind, o.doc, named, o.id, rev, doc.Sequence))
+	w.lastSeq[o.doc] = doc.Sequence
+	if w.windowAck[o.id] {
+		w.legal = true
+	}
+	if w.behindOp[o.id] {
+		w.behindAck = true
+	}
+	via := ""
+	if mid != "" {
+		via = ",via=" + mid
+	}
+	w.log = append(w.log, fmt.Sprintf("c%d%s.%s(d%d,parent=%q%s)#%d=%s@%d", o.client, at, kind, o.doc, named, via, o.id, rev, doc.Sequence))
 }
 
 // plan builds the fault-store rules for every instrumented operation in the tree below o.
@@ -429,9 +608,34 @@ func (w *vfC05World) runHook(op *vfC05Op, depth int, typ vs.OpType) {
 	if guard {
 		w.resWindow[op.doc]--
 	}
+	hookedNode := 0
+	if op.client < len(w.nodeOf) {
+		hookedNode = w.nodeOf[op.client]
+	}
+	var last, max uint64
+	if len(w.nodes) > 1 {
+		w.mu.Unlock()
+		last, max = w.nodes[hookedNode].window()
+		w.mu.Lock()
+	}
 	for _, a := range w.acks[before:] {
 		if a.doc == op.doc {
 			w.retried = true // a complete write of another client landed inside the window: the CAS write must fail
+			w.windowAck[op.id] = true
+			if a.kind == "relay" {
+				w.relayed = true
+			}
+			if a.node != hookedNode {
+				w.crossNode = true
+				// the retry abandons the sequence of the first pass and takes the node's next number
+				if last < max {
+					w.inHand = true
+					if last+1 <= a.seq {
+						w.behind = true
+						w.behindOp[op.id] = true
+					}
+				}
+			}
 		}
 	}
 	w.mu.Unlock()
@@ -445,6 +649,8 @@ type vfC05Rev struct {
 	deleted bool
 	seq     uint64
 	v       int
+	op      int  // the acknowledged write that created the revision
+	carried bool // intermediate revision created by the push that carried it (no body of its own)
 }
 
 // vfC05ModelWinner: the leaf maximising (not deleted, generation, digest).
@@ -499,6 +705,11 @@ func (w *vfC05World) finalCheck(ordered bool) error {
 		}
 		seqOwner[a.seq] = a.op
 	}
+	for _, seq := range vfC05SortedSeqs(w.warmSeqs) {
+		if op, dup := seqOwner[seq]; dup {
+			return fmt.Errorf("write #%d and the write of %s were both acknowledged with sequence %d", op, w.warmSeqs[seq], seq)
+		}
+	}
 	for d, docID := range w.docs {
 		revs := map[string]*vfC05Rev{}
 		var last uint64
@@ -511,7 +722,16 @@ func (w *vfC05World) finalCheck(ordered bool) error {
 			if prev, dup := revs[a.rev]; dup {
 				return fmt.Errorf("%s: revision %s acknowledged twice (sequences %d and %d)", docID, a.rev, prev.seq, a.seq)
 			}
-			revs[a.rev] = &vfC05Rev{parent: a.named, deleted: a.deleted, seq: a.seq, v: a.v}
+			parent := a.named
+			if a.mid != "" {
+				// the push carried an intermediate revision: it creates it unless an earlier acknowledged
+				// write (a relay inside its window) already did
+				if _, have := revs[a.mid]; !have {
+					revs[a.mid] = &vfC05Rev{parent: a.named, seq: a.seq, op: a.op, carried: true}
+				}
+				parent = a.mid
+			}
+			revs[a.rev] = &vfC05Rev{parent: parent, deleted: a.deleted, seq: a.seq, v: a.v, op: a.op}
 			if a.seq > last {
 				last = a.seq
 			}
@@ -535,7 +755,15 @@ func (w *vfC05World) finalCheck(ordered bool) error {
 			if !ok {
 				return fmt.Errorf("%s: acknowledged write #%d (%s, sequence %d) is missing from the final revision history %v", docID, a.op, a.rev, a.seq, vfC05TreeString(doc.History))
 			}
-			if a.named != "" {
+			if a.mid != "" {
+				minfo, ok := doc.History[a.mid]
+				if !ok {
+					return fmt.Errorf("%s: intermediate revision %s of acknowledged push #%d is missing from the final revision history %v", docID, a.mid, a.op, vfC05TreeString(doc.History))
+				}
+				if info.Parent != a.mid || minfo.Parent != a.named || minfo.Deleted {
+					return fmt.Errorf("%s: acknowledged push #%d named the ancestry %s <- %s <- %s but is stored as %s <- %q, %s <- %q (deleted=%v)", docID, a.op, a.named, a.mid, a.rev, a.rev, info.Parent, a.mid, minfo.Parent, minfo.Deleted)
+				}
+			} else if a.named != "" {
 				if info.Parent != a.named {
 					return fmt.Errorf("%s: acknowledged write #%d (%s) named parent %s but is stored under parent %q", docID, a.op, a.rev, a.named, info.Parent)
 				}
@@ -551,8 +779,12 @@ func (w *vfC05World) finalCheck(ordered bool) error {
 				return fmt.Errorf("%s: acknowledged write #%d (%s) deleted=%v but stored deleted=%v", docID, a.op, a.rev, a.deleted, info.Deleted)
 			}
 			// own sequence greater than that of the write it superseded
-			if p, ok := revs[revs[a.rev].parent]; ok && a.seq <= p.seq {
-				return fmt.Errorf("%s: write #%d (%s) has sequence %d, not greater than sequence %d of its parent %s", docID, a.op, a.rev, a.seq, p.seq, revs[a.rev].parent)
+			pid := revs[a.rev].parent
+			if p, ok := revs[pid]; ok && p.op == a.op {
+				pid = p.parent // the intermediate revision was created by this very write
+			}
+			if p, ok := revs[pid]; ok && a.seq <= p.seq {
+				return fmt.Errorf("%s: write #%d (%s) has sequence %d, not greater than sequence %d of its parent %s (write #%d)", docID, a.op, a.rev, a.seq, p.seq, pid, p.op)
 			}
 		}
 		// in commit order every acknowledged write's sequence exceeds that of the write it superseded
@@ -575,6 +807,9 @@ func (w *vfC05World) finalCheck(ordered bool) error {
 			}
 		}
 		for _, r := range w.rejs {
+			if _, created := revs[r.rev]; created {
+				continue // a relayed intermediate revision that an acknowledged write created
+			}
 			if r.doc == d && r.rev != "" && doc.History.contains(r.rev) {
 				return fmt.Errorf("%s: rejected push #%d left its revision %s in the history", docID, r.op, r.rev)
 			}
@@ -598,8 +833,15 @@ func (w *vfC05World) finalCheck(ordered bool) error {
 				n++
 				cur = nx
 			}
-			if n != nAcks {
-				return fmt.Errorf("%s: conflicts are disallowed but the acknowledged revisions do not form one chain (chain from the root has %d of %d)", docID, n, nAcks)
+			// one revision per acknowledged write, plus the intermediate revisions that pushes carried themselves
+			carried := 0
+			for _, r := range revs {
+				if r.carried {
+					carried++
+				}
+			}
+			if n != nAcks+carried {
+				return fmt.Errorf("%s: conflicts are disallowed but the acknowledged revisions do not form one chain (chain from the root has %d of %d acknowledged writes + %d carried intermediate revisions)", docID, n, nAcks, carried)
 			}
 			for _, r := range w.rejs {
 				if r.doc == d && r.status != http.StatusConflict && !r.rosmarRace {
@@ -636,35 +878,69 @@ func (w *vfC05World) finalCheck(ordered bool) error {
 			}
 		}
 	}
-	// after quiescence the changes feed announces each document's final revision at its final sequence
+	// after quiescence the changes feed of EVERY node announces each document's final revision at its final sequence
 	if len(w.nodes) > 1 {
+		// a node's reserved numbers stay out until here; a cache that has waited for them longer than
+		// CachePendingSeqMaxWait (5 s) gives up on them and handles later arrivals on another path. A
+		// case that was stalled that long (machine load) is not decided on the feed.
+		if !w.started.IsZero() && time.Since(w.started) > 3*time.Second {
+			return kit.InconclusiveErr{Msg: "the case was stalled for more than 3 s before quiescence (pending-sequence wait of the change caches)"}
+		}
 		// with real batching each node holds reserved numbers; give them back now, as each node's idle
-		// timer (releaseSequenceMonitor) would after 1.5 s without a reservation
+		// timer (releaseSequenceMonitor, parked in this mode) would after 1.5 s without a reservation
 		for _, n := range w.nodes {
 			n.dbc.sequences.releaseUnusedSequences(n.ctx)
 		}
-	}
-	if len(w.nodes) > 1 {
-		// env.WaitCache waits for the node's own last allocation; with two nodes the bucket's counter is
-		// the high-water mark of what has been handed out
+		// a node's own last allocation says nothing about the other nodes: the bucket's counter is the
+		// high-water mark of everything handed out
 		counter, err := w.env.DBC.sequences.getSequence(w.env.Ctx)
 		if err != nil {
 			return kit.InconclusiveErr{Msg: "reading the sequence counter: " + err.Error()}
 		}
-		if err := w.env.WaitSeq(counter); err != nil {
-			return err
+		for i, n := range w.nodes {
+			if err := vfC05WaitSeq(n.dbc, counter); err != nil {
+				return kit.InconclusiveErr{Msg: fmt.Sprintf("node %d: %v", i, err)}
+			}
 		}
 	} else if err := w.env.WaitCache(); err != nil {
 		return err
 	}
-	rows, err := vfChanges(w.env.Ctx, w.env.Coll, nil, ChangesOptions{})
+	for i, n := range w.nodes {
+		if err := w.feedCheck(i, n); err != nil {
+			return err
+		}
+	}
+	return nil
+}
+
+// vfC05WaitSeq: bounded wait for a node's change cache; expiry is INCONCLUSIVE.
+func vfC05WaitSeq(dbc *DatabaseContext, seq uint64) error {
+	deadline := time.Now().Add(vfWaitBound)
+	for {
+		if dbc.changeCache.getNextSequence() >= seq+1 {
+			return nil
+		}
+		if time.Now().After(deadline) {
+			return kit.InconclusiveErr{Msg: fmt.Sprintf("change cache did not reach sequence %d within %v (next=%d)", seq, vfWaitBound, dbc.changeCache.getNextSequence())}
+		}
+		time.Sleep(time.Millisecond)
+	}
+}
+
+// feedCheck: one node's since-0 changes feed against the stored documents.
+func (w *vfC05World) feedCheck(idx int, n *vfC05Node) error {
+	at := ""
+	if len(w.nodes) > 1 {
+		at = fmt.Sprintf(" (changes feed of node %d)", idx)
+	}
+	rows, err := vfChanges(n.ctx, n.coll, nil, ChangesOptions{})
 	if err != nil {
 		if vfIsInconclusive(err) {
 			return err
 		}
-		return fmt.Errorf("changes feed failed: %v", err)
+		return fmt.Errorf("changes feed failed%s: %v", at, err)
 	}
-	for d, docID := range w.docs {
+	for _, docID := range w.docs {
 		var mine []*ChangeEntry
 		for _, r := range rows {
 			if r.ID == docID {
@@ -674,30 +950,38 @@ func (w *vfC05World) finalCheck(ordered bool) error {
 		doc, err := w.env.Coll.GetDocument(w.env.Ctx, docID, DocUnmarshalAll)
 		if err != nil {
 			if len(mine) != 0 {
-				return fmt.Errorf("%s: never acknowledged, but announced on the changes feed", docID)
+				return fmt.Errorf("%s: never acknowledged, but announced on the changes feed%s", docID, at)
 			}
 			continue
 		}
-		_ = d
 		if len(mine) != 1 {
 			var all []string
 			for _, r := range rows {
 				all = append(all, fmt.Sprintf("%s@%s", r.ID, r.Seq.String()))
 			}
-			return fmt.Errorf("%s: since-0 changes feed has %d rows for the document, want 1 (all rows: %v)", docID, len(mine), all)
+			return fmt.Errorf("%s: since-0 changes feed has %d rows for the document, want 1 (all rows: %v)%s", docID, len(mine), all, at)
 		}
 		row := mine[0]
 		if row.Seq.Seq != doc.Sequence {
-			return fmt.Errorf("%s: changes feed announces the document at sequence %d, its final sequence is %d", docID, row.Seq.Seq, doc.Sequence)
+			return fmt.Errorf("%s: changes feed announces the document at sequence %d, its final sequence is %d%s", docID, row.Seq.Seq, doc.Sequence, at)
 		}
 		if len(row.Changes) != 1 || row.Changes[0]["rev"] != doc.GetRevTreeID() {
-			return fmt.Errorf("%s: changes feed announces %v, the final revision is %s", docID, row.Changes, doc.GetRevTreeID())
+			return fmt.Errorf("%s: changes feed announces %v, the final revision is %s%s", docID, row.Changes, doc.GetRevTreeID(), at)
 		}
 		if row.Deleted != doc.History[doc.GetRevTreeID()].Deleted {
-			return fmt.Errorf("%s: changes feed deleted=%v, final revision deleted=%v", docID, row.Deleted, doc.History[doc.GetRevTreeID()].Deleted)
+			return fmt.Errorf("%s: changes feed deleted=%v, final revision deleted=%v%s", docID, row.Deleted, doc.History[doc.GetRevTreeID()].Deleted, at)
 		}
 	}
 	return nil
+}
+
+func vfC05SortedSeqs(m map[uint64]string) []uint64 {
+	out := make([]uint64, 0, len(m))
+	for k := range m {
+		out = append(out, k)
+	}
+	sort.Slice(out, func(i, j int) bool { return out[i] < out[j] })
+	return out
 }
 
 func vfC05TreeString(t RevTree) string {
@@ -768,8 +1052,10 @@ func vfC05OpenSecondNode(t *testing.T, env *vfEnv, w *vs.Bucket, allow bool) (n 
 }
 
 func vfC05NewWorld(env *vfEnv, w *vs.Bucket, allow bool, clients, docs int) *vfC05World {
-	world := &vfC05World{env: env, w: w, allow: allow, attempts: map[string]int{}, resWindow: map[int]int{}}
+	world := &vfC05World{env: env, w: w, allow: allow, attempts: map[string]int{}, resWindow: map[int]int{},
+		windowAck: map[int]bool{}, inflight: map[int]vfC05Chain{}, warmSeqs: map[uint64]string{}, lastSeq: map[int]uint64{}, behindOp: map[int]bool{}}
 	world.nodes = []*vfC05Node{{ctx: env.Ctx, dbc: env.DBC, coll: env.Coll}}
+	world.nodeOf = make([]int, clients)
 	for d := 0; d < docs; d++ {
 		world.docs = append(world.docs, fmt.Sprintf("doc%d", d))
 	}
@@ -813,40 +1099,24 @@ func vfC05Classes(w *vfC05World, extra ...string) (classes []string, nontrivial 
 	return classes, w.retried && rejected
 }
 
-// TestVerif_C05_Interleave: deterministic schedule exploration.
+// TestVerif_C05_Interleave: deterministic schedule exploration (one gateway node, sequence batching pinned to 1).
 func TestVerif_C05_Interleave(t *testing.T) {
 	rec := kit.New("C05", "Interleave")
 	defer rec.Flush()
+	restore := SuspendSequenceBatching()
+	defer restore()
 	rapid.Check(t, func(rt *rapid.T) {
 		g := &vfC05Gen{}
-		// two-node dimension: two gateway nodes on one bucket with REAL sequence batching, the clients
-		// spread over the nodes (client c works through node c%2), one node's allocator pre-advanced
-		twoNode := rapid.IntRange(0, 3).Draw(rt, "twoNode") == 0
-		preNode, preAdvance := 0, 0
-		if twoNode {
-			preNode = rapid.IntRange(0, 1).Draw(rt, "preAdvanceNode")
-			preAdvance = rapid.IntRange(0, 7).Draw(rt, "preAdvance")
-		} else {
-			restore := SuspendSequenceBatching()
-			defer restore()
-		}
 		g.allow = rapid.IntRange(0, 3).Draw(rt, "allowConflicts") == 0
-		if twoNode {
-			// a retried write stays legal after a concurrent write mostly when conflicts are allowed
-			g.allow = rapid.IntRange(0, 3).Draw(rt, "allowConflicts2") != 0
-		}
 		g.clients = rapid.IntRange(2, 4).Draw(rt, "clients")
 		g.docs = rapid.IntRange(1, 2).Draw(rt, "docs")
 		seeded := rapid.IntRange(0, 3).Draw(rt, "seeded") != 0
-		top := g.ops(rt, 0, nil, rapid.IntRange(2, 8).Draw(rt, "ops"), -1)
+		top := g.ops(rt, 0, nil, rapid.IntRange(2, 8).Draw(rt, "ops"), -1, nil)
 		var planParts []string
 		for _, o := range top {
 			planParts = append(planParts, o.render())
 		}
 		render := fmt.Sprintf("allowConflicts=%v clients=%d docs=%d seeded=%v: %s", g.allow, g.clients, g.docs, seeded, strings.Join(planParts, "; "))
-		if twoNode {
-			render = fmt.Sprintf("twoNodes(batching,node%d pre-advanced by %d) ", preNode, preAdvance) + render
-		}
 
 		env, w, err := vfC05Open(t, g.allow, true)
 		if err != nil {
@@ -857,83 +1127,176 @@ func TestVerif_C05_Interleave(t *testing.T) {
 		defer env.Close()
 		world := vfC05NewWorld(env, w, g.allow, g.clients, g.docs)
 		world.avoid = kit.Known("C05", vfC05SigResurrect)
-		if twoNode {
-			n2, err := vfC05OpenSecondNode(t, env, w, g.allow)
-			if err != nil {
-				rec.Inconclusive()
-				kit.InconclusiveLine("C05", "cannot open the second node: %v", err)
-				rt.Skip("no second node")
-			}
-			defer n2.dbc.Close(n2.ctx)
-			world.nodes = append(world.nodes, n2)
-			// pre-advance one node's allocator: it reserves (growing) batches and ends up holding reserved
-			// numbers below what the other node will be handed next; the numbers taken here are given back
-			pn := world.nodes[preNode]
-			for i := 0; i < preAdvance; i++ {
-				seq, err := pn.dbc.sequences.nextSequence(pn.ctx)
-				if err == nil {
-					err = pn.dbc.sequences.releaseSequence(pn.ctx, seq)
-				}
-				if err != nil {
-					rec.Inconclusive()
-					kit.InconclusiveLine("C05", "pre-advancing the allocator failed: %v", err)
-					rt.Skip("allocator")
-				}
-			}
-		}
-		fail := func(format string, args ...any) {
-			kit.Violation(rt, "C05", "Interleave", render, "%s\nexecution: %s", fmt.Sprintf(format, args...), world.history())
-		}
-		if seeded {
-			// every document exists and every client has read it: the clients start from one parent
-			for d := range world.docs {
-				seed := &vfC05Op{id: 1000 + d, client: 0, doc: d, kind: "put"}
-				world.exec(seed, 0)
-				for c := 1; c < g.clients; c++ {
-					world.exec(&vfC05Op{id: 2000, client: c, doc: d, kind: "read"}, 0)
-				}
-			}
-		}
-		for _, o := range top {
-			var rules []vs.Rule
-			world.plan(o, 0, &rules)
-			w.Arm(&vs.Plan{Rules: rules})
-			kit.Guard(rt, "C05", "Interleave", func() string { return render + "\nexecution: " + world.history() }, func() { world.exec(o, 0) })
-			for _, op := range w.MarkedTrace() {
-				if op.Action == vs.FailCas {
-					world.failcas = true
-					world.retried = true
-				}
-			}
-			w.Disarm()
-			if len(world.problems) > 0 {
-				fail("%s", world.problems[0])
-			}
-		}
-		if err := world.finalCheck(true); err != nil {
-			if vfIsInconclusive(err) {
-				rec.Inconclusive()
-				kit.InconclusiveLine("C05", "%v", err)
-				rt.Skip("inconclusive")
-			}
-			fail("%v", err)
-		}
+		vfC05Run(rt, rec, "Interleave", render, world, top, seeded, g.clients)
 		mode := "mode=conflict-free"
 		if g.allow {
 			mode = "mode=conflicts-allowed"
 		}
 		classes, nontrivial := vfC05Classes(world, mode, fmt.Sprintf("clients=%d", g.clients))
-		if twoNode {
-			classes = append(classes, "two-nodes-real-batching")
-			lower := false // a node was handed a number below the document's current sequence (re-check path)
-			for _, a := range world.acks {
-				for _, u := range a.unused {
-					_ = u
-					lower = true
-				}
+		for i := 0; i < world.excluded; i++ {
+			rec.Excluded(vfC05SigResurrect)
+		}
+		rec.Case(render, nontrivial, classes...)
+	})
+}
+
+// vfC05Run executes a generated operation tree deterministically and runs the history checker.
+func vfC05Run(rt *rapid.T, rec *kit.Rec, test, render string, world *vfC05World, top []*vfC05Op, seeded bool, clients int) {
+	w := world.w
+	fail := func(format string, args ...any) {
+		kit.Violation(rt, "C05", test, render, "%s\nexecution: %s", fmt.Sprintf(format, args...), world.history())
+	}
+	if seeded {
+		// every document exists and every client has read it: the clients start from one parent
+		for d := range world.docs {
+			seed := &vfC05Op{id: 1000 + d, client: 0, doc: d, kind: "put"}
+			world.exec(seed, 0)
+			for c := 1; c < clients; c++ {
+				world.exec(&vfC05Op{id: 2000, client: c, doc: d, kind: "read"}, 0)
 			}
-			if lower {
-				classes = append(classes, "two-nodes:acknowledged-write-set-aside-a-sequence")
+		}
+	}
+	for _, o := range top {
+		var rules []vs.Rule
+		world.plan(o, 0, &rules)
+		w.Arm(&vs.Plan{Rules: rules})
+		kit.Guard(rt, "C05", test, func() string { return render + "\nexecution: " + world.history() }, func() { world.exec(o, 0) })
+		for _, op := range w.MarkedTrace() {
+			if op.Action == vs.FailCas {
+				world.failcas = true
+				world.retried = true
+			}
+		}
+		w.Disarm()
+		if len(world.problems) > 0 {
+			fail("%s", world.problems[0])
+		}
+	}
+	if err := world.finalCheck(true); err != nil {
+		if vfIsInconclusive(err) {
+			rec.Inconclusive()
+			kit.InconclusiveLine("C05", "%v", err)
+			rt.Skip("inconclusive")
+		}
+		fail("%v", err)
+	}
+}
+
+// TestVerif_C05_MultiNode: the deterministic mode over a cluster - 2 (sometimes 3) gateway nodes share one
+// bucket, each with its own sequence allocator (real batching: a node holds several reserved numbers while
+// another node's numbers run ahead) and its own change cache. The generator assigns the clients to nodes, so
+// the complete write forced into a read -> CAS window may come from another node than the hooked write.
+func TestVerif_C05_MultiNode(t *testing.T) {
+	rec := kit.New("C05", "MultiNode")
+	defer rec.Flush()
+	oldFreq := MaxSequenceIncrFrequency
+	defer func() { MaxSequenceIncrFrequency = oldFreq }()
+	rapid.Check(t, func(rt *rapid.T) {
+		g := &vfC05Gen{multi: true}
+		nNodes := 2
+		if rapid.IntRange(0, 3).Draw(rt, "threeNodes") == 0 {
+			nNodes = 3
+		}
+		// batch growth is driven by the time between two reservations (below MaxSequenceIncrFrequency the
+		// batch doubles, 1 -> 2 -> 4 -> 8 -> 10); a generated case runs in milliseconds, so make the regime a
+		// generated choice instead of a matter of machine load
+		growth := rapid.IntRange(0, 4).Draw(rt, "batchGrowth") != 0
+		if growth {
+			MaxSequenceIncrFrequency = time.Hour
+		} else {
+			MaxSequenceIncrFrequency = 0 // every reservation takes a single number (as SuspendSequenceBatching)
+		}
+		g.allow = rapid.IntRange(0, 3).Draw(rt, "allowConflicts") == 0
+		g.clients = rapid.IntRange(2, 4).Draw(rt, "clients")
+		g.docs = rapid.IntRange(1, 2).Draw(rt, "docs")
+		nodeOf := make([]int, g.clients)
+		distinct := false
+		for c := range nodeOf {
+			nodeOf[c] = rapid.IntRange(0, nNodes-1).Draw(rt, "nodeOfClient")
+			if nodeOf[c] != nodeOf[0] {
+				distinct = true
+			}
+		}
+		if !distinct {
+			nodeOf[g.clients-1] = (nodeOf[0] + 1) % nNodes
+		}
+		// allocator history before the clients start: writes to private documents on generated nodes, so that
+		// the nodes hold reserved batches of different sizes in a generated order
+		warm := rapid.SliceOfN(rapid.IntRange(0, nNodes-1), 0, 8).Draw(rt, "warmUpWrites")
+		seeded := rapid.IntRange(0, 7).Draw(rt, "seeded") != 0
+		top := g.ops(rt, 0, nil, rapid.IntRange(2, 6).Draw(rt, "ops"), -1, nil)
+		var planParts []string
+		for _, o := range top {
+			planParts = append(planParts, o.render())
+		}
+		render := fmt.Sprintf("nodes=%d batchGrowth=%v clientNodes=%v warmUp=%v allowConflicts=%v clients=%d docs=%d seeded=%v: %s",
+			nNodes, growth, nodeOf, warm, g.allow, g.clients, g.docs, seeded, strings.Join(planParts, "; "))
+
+		env, w, err := vfC05Open(t, g.allow, true)
+		if err != nil {
+			rec.Inconclusive()
+			kit.InconclusiveLine("C05", "cannot open database: %v", err)
+			rt.Skip("no database")
+		}
+		defer env.Close()
+		world := vfC05NewWorld(env, w, g.allow, g.clients, g.docs)
+		world.avoid = kit.Known("C05", vfC05SigResurrect)
+		copy(world.nodeOf, nodeOf)
+		for len(world.nodes) < nNodes {
+			n, err := vfC05OpenSecondNode(t, env, w, g.allow)
+			if err != nil {
+				rec.Inconclusive()
+				kit.InconclusiveLine("C05", "cannot open node %d: %v", len(world.nodes), err)
+				rt.Skip("no further node")
+			}
+			defer n.dbc.Close(n.ctx)
+			world.nodes = append(world.nodes, n)
+		}
+		for _, n := range world.nodes {
+			// idle release is a generated operation ("idle"); the timer would make it a matter of machine load
+			n.dbc.sequences.mutex.Lock()
+			n.dbc.sequences.releaseSequenceWait = time.Hour
+			n.dbc.sequences.mutex.Unlock()
+		}
+		world.started = time.Now()
+		for _, nd := range warm {
+			world.warmWrite(nd)
+		}
+		if world.infra == "" {
+			vfC05Run(rt, rec, "MultiNode", render, world, top, seeded, g.clients)
+		} else {
+			rec.Inconclusive()
+			kit.InconclusiveLine("C05", "%s", world.infra)
+			rt.Skip("warm-up failed")
+		}
+		mode := "mode=conflict-free"
+		if g.allow {
+			mode = "mode=conflicts-allowed"
+		}
+		classes, nontrivial := vfC05Classes(world, mode, fmt.Sprintf("clients=%d", g.clients), fmt.Sprintf("nodes=%d", nNodes), fmt.Sprintf("batchGrowth=%v", growth))
+		for _, c := range []struct {
+			on   bool
+			name string
+		}{
+			{world.crossNode, "cross-node-window-write"},
+			{world.inHand, "cross-node-retry-with-reserved-numbers-in-hand"},
+			{world.behind, "cross-node-retry-next-reserved-number-behind-other-node"},
+			{world.behindAck, "cross-node-retry-behind-other-node-and-acknowledged"},
+			{world.behindAck && !g.allow, "conflict-free:cross-node-retry-behind-other-node-and-acknowledged"},
+			{world.firstPass, "first-pass-next-reserved-number-behind-document"},
+			{world.relayed, "relayed-intermediate-landed-in-window"},
+			{world.legal, "hooked-write-acknowledged-after-window-write"},
+			{world.legal && !g.allow, "conflict-free:hooked-write-acknowledged-after-window-write"},
+			{world.idled, "idle-release"},
+		} {
+			if c.on {
+				classes = append(classes, c.name)
+			}
+		}
+		for _, a := range world.acks {
+			if a.mid != "" {
+				classes = append(classes, "acknowledged-push-with-intermediate")
+				break
 			}
 		}
 		for i := 0; i < world.excluded; i++ {
